@@ -102,6 +102,27 @@ Theorem C10_guarded_results : forall k g calls sched t, calls_ok calls ->
 Proof. exact guarded_results. Qed.
 Print Assumptions C10_guarded_results.
 
+(* (1') exposed oneofs ((j5.ext.v1.oneof).expose): in the universe handed to the machine a message
+   refers first to its exposed oneofs (leaf nodes: registered before the fields and linked at
+   once, as messageProperties does) and then to all its field types; the grouping of the
+   members under the oneof that a caller sees is the view ConcCorr.view of the machine's
+   result, and the forced schedules compare exactly that view with the reflected schema *)
+Theorem C10_guarded_results_view : forall ex k g calls sched t, calls_ok calls ->
+  exists j, map (view ex k) (nth t (results (run Guarded k g calls sched)) []) =
+            map (fun n => view ex k (result_solo k g n)) (firstn j (nth t calls [])).
+Proof. exact guarded_results_view. Qed.
+Print Assumptions C10_guarded_results_view.
+
+(* message 1 { oneof x0 {expose} { 2 r0; 3 r1 }; 4 r2 }: the machine registers 101 (the oneof), then 2, 3, 4 *)
+Example C10_exposed_oneof_example :
+  let g : graph := [(1, [101; 2; 3; 4]); (101, []); (2, []); (3, []); (4, [1])] in
+  let ex : expo := [(1, [(101, 0, 2)])] in
+  result_solo 3 g 1 = ROk (UNode 1 [UNode 101 []; UNode 2 []; UNode 3 []; UNode 4 [UNode 1 [UCut 101; UCut 2; UCut 3; UCut 4]]]) /\
+  view ex 3 (result_solo 3 g 1) =
+    ROk (UNode 1 [UNode 101 [UNode 2 []; UNode 3 []]; UNode 4 [UNode 1 [UCut 101; UCut 4]]]) /\
+  snd (run_trace Guarded 3 g [[1]] (repeat 0%nat 12)) = [2; 3; 4; 5; 6; 4; 5; 6; 4; 5; 6; 4].
+Proof. cbv zeta. repeat split; vm_compute; reflexivity. Qed.
+
 (* (2a) no deadlock: while a call is outstanding some thread can take a step that changes the
    state (can_step: it has a call to make and is not blocked in Lock() behind a held lock).
    The machine's Unlock only frees the lock; who takes it next — the longest waiting
